@@ -128,7 +128,7 @@ def run(tier):
                 "in-memory file map with the stack of files in progress; acyclic graphs: byte equality and manifest equality; cyclic graphs: termination (watchdog) and bounded size; distinct = distinct (graph, format)")
     mmd.so_path(); dl = core.deadline_s(tier)
     graphs = graph_cases(tier); n = len(graphs) * len(FORMATS)
-    res = pmap.pmap(n, make_case(graphs), deadline_s=dl * 0.9, hang_s=30)
+    res = pmap.pmap(n, make_case(graphs), deadline_s=dl * 0.9, hang_s=30, describe=lambda i: dict(files={NAMES[k]: file_body(k, m, "<dir>").decode() for k, m in enumerate(graphs[i // len(FORMATS)])}, format=FORMATS[i % len(FORMATS)][0]))
     pmap.fold(rep, "include-graphs", n, res, "%d include graphs x 4 formats" % len(graphs))
     case, n2 = marker_len_case()
     res = pmap.pmap(n2, case, workers=2)
